@@ -672,6 +672,14 @@ RULES = {
                  "while x > xn {", "while ( x . cmp ( & xn ) == core :: cmp :: Ordering :: Greater ) {"),
     "R24": Rule("R24", "let guess = match self.to_f64() { .. }; -> let guess = __root_guess(self);  (ABSTRACTION: the floating-point initial guess - f64 conversion, sqrt/cbrt/ln/exp, the recursive scaled root - is replaced by an arbitrary positive canonical value; that computation is assumed to terminate without panic; the function result is proved independent of the guess)",
                 "let guess = match self . to_f64 ( ) { $$arms } ;", "let guess = __root_guess ( self ) ;"),
+    "R24b": Rule("R24b", "match self.to_f64() { Some(f) if f.is_finite() => { FLOAT } _ => { BODY } } -> match __float_guess(self) { Some(g__) => g__, None => { BODY } }  (ABSTRACTION, finer than R24: only the floating-point arm - f64 conversion, sqrt/cbrt/ln/exp, from_f64().unwrap() - is replaced by an arbitrary positive canonical value; the fallback arm is reached only for operands of 1024 bits or more (to_f64 of anything below 2^1023 is finite); the scaled recursive fallback itself stays under contract, including its termination)",
+                 "match self . to_f64 ( ) { Some ( f ) if f . is_finite ( ) => { $$x } _ => { $$body } }",
+                 "match __float_guess ( self ) { Some ( g__ ) => g__ , None => { $$body } }"),
+    "R24c": Rule("R24c", "f64::MAX_EXP as u64 -> 1024u64  (std: `pub const MAX_EXP: i32 = 1024`)", "f64 :: MAX_EXP as u64", "1024u64"),
+    "R3rs": Rule("R3rs", "(self >> scale).F(A) << root_scale -> Shl::shl(Shr::shr(self, scale).F(A), root_scale)",
+                 "( self >> scale ) . $f ( $$a ) << root_scale", "Shl :: shl ( Shr :: shr ( self , scale ) . $f ( $$a ) , root_scale )"),
+    "R3os": Rule("R3os", "BigUint::one() << max_bits -> Shl::shl(BigUint::one(), max_bits)", "BigUint :: one ( ) << max_bits", "Shl :: shl ( BigUint :: one ( ) , max_bits )"),
+    "R3dc": Rule("R3dc", "Integer::div_ceil(&extra_bits, &n64) -> __u64_div_ceil(extra_bits, n64)  (num_integer on u64: external crate)", "Integer :: div_ceil ( & extra_bits , & n64 )", "__u64_div_ceil ( extra_bits , n64 )"),
     "R3u2": Rule("R3u2", "x.sqrt().into() (num_integer::Roots on u64: external crate) -> From::from(__u64_sqrt(x))", "x . sqrt ( ) . into ( )", "From :: from ( __u64_sqrt ( x ) )"),
     "R3u3": Rule("R3u3", "x.cbrt().into() (num_integer::Roots on u64: external crate) -> From::from(__u64_cbrt(x))", "x . cbrt ( ) . into ( )", "From :: from ( __u64_cbrt ( x ) )"),
     "R3un": Rule("R3un", "x.nth_root(n).into() (num_integer::Roots on u64: external crate) -> From::from(__u64_nth_root(x, n))", "x . nth_root ( n ) . into ( )", "From :: from ( __u64_nth_root ( x , n ) )"),
